@@ -72,9 +72,9 @@ theorem good_str (s : Bytes) (hs : ∀ b ∈ s, b ≠ 0) : Good (JsonText.printS
   rw [hp] at hrt ⊢
   simp only [parseValue, skipWs_cons _ _ (by decide : isWs 34 = false), List.head?_cons, if_true, hrt]
 
-/-- bytes of YANG identifiers and module names (what member names are made of) -/
+/-- bytes of YANG identifiers and module names (what member names are made of), `:` and the `@` of metadata members -/
 def isKeyByte (b : UInt8) : Bool :=
-  (48 ≤ b && b ≤ 57) || (65 ≤ b && b ≤ 90) || (97 ≤ b && b ≤ 122) || b == 95 || b == 45 || b == 46 || b == 58
+  (48 ≤ b && b ≤ 57) || (65 ≤ b && b ≤ 90) || (97 ≤ b && b ≤ 122) || b == 95 || b == 45 || b == 46 || b == 58 || b == 64
 
 def KeyOk (k : Bytes) : Prop := ∀ b ∈ k, isKeyByte b = true
 
